@@ -669,6 +669,10 @@ func BackSlice(v ssa.Value, visit func(ssa.Value) bool) {
 				}
 			}
 			walk(x.X)
+		case *ssa.Parameter:
+			if b := paramBindings[x]; b != nil {
+				walk(b)
+			}
 		case *ssa.FreeVar:
 			fn := x.Parent()
 			if fn == nil || fn.Parent() == nil {
@@ -762,6 +766,17 @@ func BackSlice(v ssa.Value, visit func(ssa.Value) bool) {
 	}
 	walk(v)
 }
+
+// paramBindings: parameters of a function with a single known call site (the body of a goroutine started by
+// one `go f(args)` statement) and the argument each stands for. BackSlice continues from such a parameter into
+// the argument, as it does from a closure's free variable into its binding.
+var paramBindings = map[*ssa.Parameter]ssa.Value{}
+
+// BindParam records that prm stands for arg.
+func BindParam(prm *ssa.Parameter, arg ssa.Value) { paramBindings[prm] = arg }
+
+// ParamBinding returns the argument prm stands for, if any.
+func ParamBinding(prm *ssa.Parameter) ssa.Value { return paramBindings[prm] }
 
 // DerivesFrom reports whether pred holds for some value in v's backward slice.
 func DerivesFrom(v ssa.Value, pred func(ssa.Value) bool) bool {
